@@ -439,14 +439,14 @@ prop('C13',
 prop('C18', units=['frost_secp256k1_tr'],
      level_text='Unit frost_secp256k1_tr = the frost-core modules (verified WITHOUT the default-world axiom) + frost-secp256k1-tr/src/lib.rs extracted mechanically, against '
                 'an opaque model of k256/sha2 (prelude/k256_model.rs).  For ALL inputs and all parities Verus proves the real text of the Taproot hooks (pre_sign, pre_aggregate, '
-                'pre_verify, generate_nonce, challenge, compute_signature_share, verify_share, serialize_signature, deserialize_signature, post_dkg, H2, and the four hooks the suite '
+                'pre_verify, single_sign, generate_nonce, challenge, compute_signature_share, verify_share, serialize_signature, deserialize_signature, post_dkg, H2, and the four hooks the suite '
                 'leaves at their default), of the EvenY / Tweak impls for KeyPackage, PublicKeyPackage, VerifyingKey, GroupCommitment, Signature, of tweak / tagged_hash / '
                 'hasher_to_scalar / negate_nonce(s) and of the sign / sign_with_tweak / aggregate / aggregate_with_tweak wrappers against contracts transcribed from BIP-340/341: challenge = '
                 'int(hash_BIP0340/challenge(x(R)||x(P)||m)) mod n; t = int(hash_TapTweak(x(P)||root?)); into_even_y negates key, every verifying share and the signing share iff the '
                 'key has odd Y; tweak = even-Y normalisation first, then +t*G / +t on key, every verifying share, signing share; nonces (signer) resp. commitment share (verifier) negated iff '
                 'the group commitment has odd Y; 64-byte encoding x(R)||ser(z), decoding lifts to even Y; post_dkg = tweak(None) on both packages.  The impl DEFINES the trait-level hook '
                 'spec functions as these, so the Taproot world (lemma_taproot_world) is proved, not assumed.  frost-core\'s sign / aggregate_custom / aggregate / detect_cheater / '
-                'verify_signature_share_precomputed / VerifyingKey::verify / batch::Item::new are verified here against WORLD-GENERIC contracts (lemmas/vspec_w.rs: the hook spec functions '
+                'verify_signature_share_precomputed / VerifyingKey::verify / SigningKey::sign / default_sign / batch::Item::new are verified here against WORLD-GENERIC contracts (lemmas/vspec_w.rs: the hook spec functions '
                 'threaded through exactly as the code calls the hooks).  Machine-checked theorems (lemmas/vprops_tr.rs): verify_share accepts exactly the share compute_signature_share '
                 'produces, for both parities of the group commitment and of the group key (thm_tr_share_accepted_iff, thm_tr_hooks_share_parity, thm_tr_share_check_exact, '
                 'thm_tr_key_parity_consistent); if every signer is honest and the key shares lie on a polynomial with constant term the group secret (C06/C07), aggregate returns Ok and the '
@@ -458,7 +458,7 @@ prop('C18', units=['frost_secp256k1_tr'],
                 'Scalar::reduce(U256::from_be_slice(b)) is a function of b.  T3/T4 for k256: 35 external_body proof fns in the impl Field / impl Group blocks (contracts_tr/tr_model.vc).  T6 addenda: a '
                 'BTreeMap is determined by its view (needed because hooks.vc states pre_aggregate/post_dkg results as equations); AsRef<[u8]> for &[u8] is the identity.  One definitional axiom '
                 '(tr_rnz).  NOT decided: independent verifiers (libsecp256k1, Python) are replaced by the transcribed BIP-340 Verify; "does not verify under the untweaked key" is reduced to a '
-                'relation between two hash outputs, not excluded; BIP-341 rejects t >= n where the code reduces mod n (probability < 2^-127); single_sign, SigningKey::into_even_y, H1/H3/H4/H5/HDKG/HID, '
+                'relation between two hash outputs, not excluded; BIP-341 rejects t >= n where the code reduces mod n (probability < 2^-127); SigningKey::into_even_y (assumed: it panics on the zero key and Verus allows no precondition on a trait-impl method), H1/H3/H4/H5/HDKG/HID, '
                 'hash_to_array/hash_to_scalar and the Field/Group method bodies are assumed or without contract; frost::verify_signature_share has no world-generic contract (emitted without contract); '
                 'the dealer path is NOT tweaked by the library (post_generate is not overridden) -- dealer keys are covered through sign_with_tweak/aggregate_with_tweak; theorem premise "the even-Y '
                 'package exists" is witnessed by every execution of pre_aggregate (BTreeMap has no spec-level constructor).',
